@@ -11,6 +11,7 @@ CONSTANTS
   TrOnly = FALSE
   AxisBy = "dims"
   Memo = FALSE
+  SweepStride = 7
   WriteVia = "data"
   ClampBy = "dim"
   RangeBy = "coords"
